@@ -48,7 +48,10 @@ def check(run):
     for c in base:
         r0 = res0.get(c["id"]) or {}
         nev = len(r0.get("events") or [])
-        if not nev:
+        if not nev or (r0.get("outcome") or ["?"])[0] != "returned":
+            # without a fault every generated project runs to its end and delivers events: otherwise nothing can be injected
+            run.tie_broken("the run of a generated project without any fault returns and delivers events", case=c,
+                           impl={"outcome": r0.get("outcome"), "events": nev}, detail=(r0.get("traceback") or "")[-1500:])
             continue
         ks = range(nev) if (run.tier == "quick" and nev <= 40) or run.tier == "thorough" else sorted(run.rng.sample(range(nev), 40))
         for k in ks:
@@ -69,6 +72,32 @@ def check(run):
     # tasks emit, the runs end with an exception: layers 1 and 2, plus layer 3 on runs that ended by the re-raise
     results = propcommon.run_cases(run, cases, runoracle.c11_oracle, nontrivial, layers=(1, 2))
     engine.check_l3(run, cases, results, only_returned=False)
+    # real queues and real threads (no scheduler double), many events still to come when the backend fails early: the
+    # producers must not stay blocked on the event queue, the run must end and raise
+    nohooks = {"setup_suite": None, "teardown_suite": None, "setup_test": None, "teardown_test": None}
+    chatty = []
+    for k, (n, at, nlogs) in enumerate([(1, 0, 80), (2, 0, 80), (1, 4, 200), (3, 2, 120)]):
+        tests = [{"name": "t%d" % (6 + j), "disabled": False, "rank": j, "deps": [], "args": [], "params": {},
+                  "body": [["log", 1, 1000 + 10 * j + i] for i in range(nlogs)]} for j in range(3)]
+        pd = {"fixtures": [], "suites": [{"name": "s5", "disabled": False, "rank": 0, "hooks": dict(nohooks), "injected": [],
+                                          "tests": tests, "subs": []}]}
+        chatty.append({"id": "chatty%d" % k, "project": pd, "mode": "free", "sched": [],
+                       "options": {"nb_threads": n, "stop_on_failure": False, "force_disabled": False},
+                       "fault": {"at": at, "cls": "one", "again": False}})
+    cres = sim.run_cases(chatty)
+    for c in chatty:
+        r = cres.get(c["id"]) or {"outcome": ["hang", "no result"]}
+        run.evaluations += 1
+        run.count("free_runs_with_many_events_after_the_failure")
+        oc = r.get("outcome") or ["?"]
+        if oc[0] in ("hang", "sched_abort"):
+            run.violation("run-hangs-after-backend-failure", "the run does not terminate after a backend raised at event %d with %d "
+                          "events still to come (real queue, %d threads): %s" % (c["fault"]["at"], 3 * len(c["project"]["suites"][0]["tests"][0]["body"]),
+                                                                                c["options"]["nb_threads"], str(oc[1])[:200]),
+                          {"case": c, "outcome": oc})
+        elif oc[0] != "raised":
+            run.violation("backend-failure-silent", "a backend raised at event %d and the run ended with %s" % (c["fault"]["at"], oc[:2]),
+                          {"case": c, "outcome": oc})
     run.coverage["rule"] = ("for each generated project a fault is injected at EVERY event index k of its run (quick: projects with at most "
                             "40 events, else 40 sampled indexes) — the recording backend raises an exception whose class takes one "
                             "argument / no message / three arguments / is UnicodeEncodeError — with 1..3 threads and random schedules; "
